@@ -131,6 +131,22 @@ def one_data(ctx, M, name, meta_args, content, signer, label):
     except Exception as e:   # noqa
         ctx.violation('parse_data∘make_data', 'roundtrip-raises', f'parse raises {type(e).__name__}', {**case, 'wire': wire})
         back = None
+    if back is not None and mi2 is not None:
+        # "returns the same MetaInfo": what the application READS off the returned object (plain attribute access,
+        # not the stored dict) must be the numbers / bytes that were given
+        given = meta if meta is not None else MetaInfo()
+        for fld in ('content_type', 'freshness_period', 'final_block_id'):
+            want = given.__dict__.get(fld)
+            try:
+                got = getattr(mi2, fld)
+            except Exception as e:   # noqa
+                ctx.violation('parse_data∘make_data', 'metainfo-attribute-unreadable',
+                              f'reading MetaInfo.{fld} of the parsed packet raises {type(e).__name__}: {e}', {**case, 'wire': wire})
+                continue
+            norm = lambda x: None if x is None else (bytes(x) if isinstance(x, (bytes, bytearray, memoryview)) else int(x))   # noqa
+            if norm(got) != norm(want):
+                ctx.violation('parse_data∘make_data', 'metainfo-attribute-differs',
+                              f'MetaInfo.{fld} given {want!r}, read back {got!r}', {**case, 'wire': wire})
     if back is not None:
         exp_meta = meta_val if meta_val is not None else ('m', [('u', 0), None, None])   # absent MetaInfo reads as MetaInfo()
         exp = (list(name), exp_meta, content)
@@ -162,7 +178,7 @@ def run(ctx):
             if rng.random() < 0.08:
                 name = name + [G.tlv(2, G.rand_bytes(rng, rng.choice([32, 32, 32, 31, 0])))] + name[:1]
             one_interest(ctx, M, name, ip, app, sg, label)
-            meta_args = rng.choice([None, {}, dict(content_type=rng.choice([None, 0, 1, 2, 300]),
+            meta_args = rng.choice([None, {}, dict(content_type=rng.choice([None, 0, 1, 2, 3, 4, 5, 300, 1024, 1 << 33]),
                                                    freshness_period=rng.choice([None, 0, 1000, 1 << 33]),
                                                    final_block_id=rng.choice([None, G.tlv(50, b'\x09')]))])
             content = rng.choice([None, b'', b'x', G.rand_bytes(rng, rng.choice([1, 30, 251, 252, 253, 254, 300]))])
